@@ -31,6 +31,9 @@ Sels(v) == {JBool(TRUE), JBool(FALSE)} \cup
 \* root selections never mention iss / exp (always visible anyway)
 RootSels(at) == {s \in Sels(at) : s.t = "o" /\ DOMAIN s.f \cap {"iss", "exp"} = {}}
 
+NoNarrow(cr, gh) == {}
+\* every selection whose selected disclosable nodes are a subset of the current ones
+SubSels(cr, gh) == LET at == cr[gh.c].at  now == SelPaths(at, gh.sel, "") IN {s \in RootSels(at) : SelPaths(at, s, "") \subseteq now}
 FarExp == [k |-> "int", v |-> 100000]
 NoNbf == [k |-> "absent", v |-> 0]
 \* scenario emission: one line per complete behaviour
